@@ -389,8 +389,11 @@ def tlsKnownSuites : List Nat := tlsSuiteTable.map (·.1)
 def knownSuites (gm : Bool) : List Nat := if gm then gmKnownSuites else tlsKnownSuites
 
 /-- the suite list a client writes into its hello: the configured (or default) list restricted to the suites it
-    knows (`makeClientHelloGM`, `makeClientHello` at version 0x0303) -/
-def helloSuites (gm : Bool) (configured : List Nat) : List Nat := configured.filter (knownSuites gm).contains
+    knows (`makeClientHelloGM`, `makeClientHello` at version 0x0303); the GMSSL client (repaired) leaves out the
+    ECDHE-SM2 suites 0xe011 / 0xe051 it knows but whose key exchange it cannot complete, i.e. it offers the known
+    suites that are in `gmSuites` -/
+def helloSuites (gm : Bool) (configured : List Nat) : List Nat :=
+  configured.filter (fun s => (knownSuites gm).contains s && (!gm || gmSuites.contains s))
 
 /-- `clientHandshakeState.pickTLSVersion`: the server's version must pass `mutualVersion` UNCHANGED — a value above
     the client's maximum, which `mutualVersion` would clamp to 0x0303, is not a version the client offered and is
